@@ -322,7 +322,33 @@ func (st *c08State) aggFormula(r *Run, tree *c08Node) {
 		ln = r.Op(op, raw+" S="+c08SpecStr(c08AggSpec(tree.Op, func() []c08Val { _, s := st.aggCells(tree); return s }())))
 		r.Stat("stream:aggregate plain (transcript + oracle)")
 	} else {
-		r.Stat("stream:aggregate nested (oracle only)")
+		// an aggregate call inside an operator expression: the token machine with its in-function
+		// branch (function start, range arguments, separators, evalInfixExpFunc) in the transcript
+		spell := map[string]string{}
+		c08Refs(tree, spell)
+		for _, lf := range leaves {
+			args := strings.Split(lf.Spell, ",")
+			sizes := lf.ArgN
+			if len(sizes) != len(args) {
+				sizes = []int{len(lf.Keys)}
+			}
+			off := 0
+			for i, a := range args {
+				if i >= len(sizes) {
+					break
+				}
+				if st.isDefName(a) {
+					spell[a] = "@DG:" + st.main()
+				} else {
+					spell[a] = "@G:" + strings.Join(lf.Keys[off:off+sizes[i]], ",")
+				}
+				off += sizes[i]
+			}
+		}
+		toks, _ := c08Tokens(text, spell)
+		op = "ev " + toks + " | " + tb.String()
+		ln = r.Op(op, raw+" render=ok tree=ok S="+c08SpecStr(want))
+		r.Stat("stream:aggregate nested in operators (transcript + oracle)")
 	}
 	r.Case("agg:"+text+"|"+strings.Join(st.lines, ";"), true)
 	replay := "reset\n" + strings.Join(st.lines, "\n") + "\n" + op
@@ -561,11 +587,12 @@ func (g *c08AggGen) leaf(r *Run, fn string) *c08Node {
 	sp, keys := g.rangeArg(r)
 	if g.rng.Chance(15) {
 		sp2, k2 := g.rangeArg(r)
+		n1 := len(keys)
 		sp, keys = sp+","+sp2, append(keys, k2...)
 		r.Stat("agg:args:2")
-	} else {
-		r.Stat("agg:args:1")
+		return &c08Node{Kind: "G", Op: fn, Spell: sp, Keys: keys, ArgN: []int{n1, len(k2)}}
 	}
+	r.Stat("agg:args:1")
 	return &c08Node{Kind: "G", Op: fn, Spell: sp, Keys: keys}
 }
 
@@ -633,12 +660,12 @@ func c08AggWitnesses(r *Run) {
 		rg("SUM", "B1:B2", "B1", "B2"),                   // error not propagated
 		rg("MAX", "A1:A8", "A1", "A2", "A3", "A4", "A5", "A6", "A7", "A8"),
 		rg("MIN", "A2:A8", "A2", "A3", "A4", "A5", "A6", "A7", "A8"),
-		rg("MAX", "A2:A3,A8:A8", "A2", "A3", "A8"), // all numbers negative next to text: -3
+		{Kind: "G", Op: "MAX", Spell: "A2:A3,A8:A8", Keys: []string{"Sheet1!A2", "Sheet1!A3", "Sheet1!A8"}, ArgN: []int{2, 1}}, // all numbers negative next to text: -3
 	} {
 		st.aggFormula(r, w)
 		r.Stat("stream:aggregate witness")
 	}
-	st.aggFormula(r, c08B("add", c08B("mul", c08U("neg", rg("MAX", "A2:A3,A8:A8", "A2", "A3", "A8")), c08Lit("N", "2")), c08Lit("N", "1")))
+	st.aggFormula(r, c08B("add", c08B("mul", c08U("neg", &c08Node{Kind: "G", Op: "MAX", Spell: "A2:A3,A8:A8", Keys: []string{"Sheet1!A2", "Sheet1!A3", "Sheet1!A8"}, ArgN: []int{2, 1}}), c08Lit("N", "2")), c08Lit("N", "1")))
 }
 
 func c08AggStream(r *Run, rng *Rng) {
